@@ -36,6 +36,18 @@ def abstract_machine(rng, with_any=False):
         t.pop("decl", None)
         t.pop("evjoin", None)
         t["internal"] = bool(t["internal"])
+    if rng.random() < 0.5:
+        ids = [s["id"] for s in d["states"]]
+        nonfinal = [s["id"] for s in d["states"] if not s["final"]]
+        ev = [rng.choice(EVS)]
+        if rng.random() < 0.5 and len(nonfinal) >= 3:
+            tgt = rng.choice(ids)      # many sources, one target
+            for s in rng.sample(nonfinal, min(len(nonfinal), rng.randint(3, 4))):
+                d["trans"].append({"src": s, "tgt": tgt, "evs": list(ev), "internal": False})
+        elif len(ids) >= 3:
+            src = rng.choice(nonfinal)  # one source, many targets
+            for t_ in rng.sample(ids, min(len(ids), rng.randint(3, 4))):
+                d["trans"].append({"src": src, "tgt": t_, "evs": list(ev), "internal": False})
     if with_any:
         ids = [s["id"] for s in d["states"]]
         nonfinal = [s["id"] for s in d["states"] if not s["final"]]
@@ -75,7 +87,11 @@ def render(rng, d, style):
 
     trans = [t for t in d["trans"] if not t.get("from_any")]
     anys = [t for t in d["trans"] if t.get("from_any")]
+    attr_trans = []
+    trans_for_order = trans
+    split_at = max(1, len(trans) - rng.randint(1, 2)) if style == "inherit_attr" else len(trans)
     by_attr = style in ("attr", "event_obj", "decorator")
+    mixed = style in ("mixed", "inherit_attr")
     handles_of_event = {}
     k = 0
     while k < len(trans):
@@ -100,7 +116,11 @@ def render(rng, d, style):
             if t["internal"] and mode == "from":
                 mode = "to"
         h = newh()
-        evs_param = [] if by_attr else list(t["evs"])
+        # mixed: the same event id may be given by parameter on one transition and by class attribute on another;
+        # inherit_attr: the transitions of the subclass part name their events by attribute
+        t_by_attr = by_attr or (style == "mixed" and len(group) == 1 and rng.random() < 0.5) or (
+            style == "inherit_attr" and k >= split_at)
+        evs_param = [] if t_by_attr else list(t["evs"])
         st = {"h": h, "evs": evs_param, "internal": t["internal"], "guards": list(t["guards"]),
               "evstyle": rng.choice(["string", "list", "event"]),
               "itself": all(g["src"] == g["tgt"] for g in group) and len(group) == 1 and rng.random() < 0.5}
@@ -109,14 +129,16 @@ def render(rng, d, style):
         else:
             st.update(op="from", tgt=t["tgt"], srcs=[g["src"] for g in group])
         body.append(st)
-        if by_attr:
+        if t_by_attr:
+            attr_trans.extend(group)
             for e in t["evs"]:
                 handles_of_event.setdefault(e, []).append(h)
         k += len(group)
-    if by_attr:
+    if by_attr or mixed:
+        trans_for_order = attr_trans
         # event attributes in the order that reproduces each transition's event list
         order = []
-        for t in trans:
+        for t in trans_for_order:
             for e in t["evs"]:
                 if e not in order:
                     order.append(e)
@@ -136,7 +158,7 @@ def render(rng, d, style):
                     nh = newh()
                     body.append({"op": "or", "h": nh, "a": acc, "b": x})
                     acc = nh
-            est = {"attr": "attr", "event_obj": "Event", "decorator": "decorator"}[style]
+            est = {"attr": "attr", "event_obj": "Event", "decorator": "decorator", "mixed": "attr", "inherit_attr": "attr"}[style]
             if est == "decorator" and any(len(t["evs"]) > 1 for t in trans if e in t["evs"]):
                 # a decorated method is also an `on` action of every transition of its list: on a transition that
                 # carries a second event it would run for that event too - not the same machine any more
@@ -299,7 +321,7 @@ class Prebuilt:
         return harness.Built.make_provider(self, prov, *a, **k)
 
 
-STYLES = ["to_param", "from_param", "attr", "merged", "event_obj", "decorator", "inherit", "any"]
+STYLES = ["to_param", "from_param", "attr", "merged", "event_obj", "decorator", "inherit", "any", "mixed", "inherit_attr"]
 
 
 def run(pid, tier, seed, replay):
@@ -319,12 +341,16 @@ def run(pid, tier, seed, replay):
         has_any = any(t.get("from_any") for t in d["trans"])
         styles = [s for s in STYLES if (s != "any" or has_any)]
         for style in rng.sample(styles, min(len(styles), 4 if quick else 6)):
-            if style in ("attr", "event_obj", "decorator") and not attr_order_ok(d):
+            if style in ("attr", "event_obj", "decorator", "mixed", "inherit_attr") and not attr_order_ok(d):
                 continue
+            if style in ("mixed", "inherit_attr") and any(len(t["evs"]) > 1 for t in d["trans"]):
+                continue    # (parameter events come before attribute events on a transition: keep event lists single)
             if style == "any":
                 # kept away from the order-sensitive corner: the any() event is declared after every state
                 pass
             body = render(rng, d, "to_param" if style == "inherit" else style)
+            if style == "inherit_attr":
+                body = [st for st in body]
             items.append((d, view, style, body))
             cases.append({"body": [{k: v for k, v in st.items() if k not in ("evstyle", "itself", "via", "style")} | (
                 {"internal": st.get("internal", False)} if st["op"] in ("to", "from") else {}) for st in body],
@@ -378,6 +404,17 @@ def run(pid, tier, seed, replay):
         scn = {"classes": [d], "steps": steps, "script": {}, "failAt": [], "budget": 0, "ni": 3, "driver": "sync",
                "rendering": style, "body": body}
         split = None
+        if style == "inherit_attr":
+            # base: the states and the parameter-declared transitions; subclass: the attribute-declared rest
+            nst = sum(1 for s in body if s["op"] == "state")
+            first_attr = next((k for k, st in enumerate(body) if st["op"] in ("to", "from") and not st["evs"]), None)
+            if first_attr is None or first_attr <= nst:
+                continue
+            try:
+                execute(body[:first_attr], d, harness.Recorder(rt_scn))
+                split = first_attr
+            except Exception:  # noqa: BLE001 - the base part alone is not a valid machine: skip this rendering
+                continue
         if style == "inherit":
             # base = all states + the longest proper prefix of the transitions that is a valid machine on its own
             nst = sum(1 for s in body if s["op"] == "state")
